@@ -1013,6 +1013,92 @@ def gen_c16f(seed, count):
 PYGEN['py_c16f'] = gen_c16f
 
 
+def gen_c05r(seed, count):
+    """a connection that ends while a queued packet is strictly in progress - some of its bytes accepted, or all of them
+    with the flush outstanding - by a transport fault, a dropped future with the handle dropped, or a broker DISCONNECT;
+    then the session is resumed (or, sometimes, replaced by a fresh one) and driven on"""
+    out = []
+    for idx in range(count):
+        r = random.Random((seed << 20) ^ idx ^ 0xC05A)
+        c = Case(rx=64, tx=256, ka=0, cid=r.choice([b't', b'client-5']))
+        c.connect(connack(0, 0, []))
+        script = [(0, 1000)] * 5
+        for j in range(r.randint(0, 2)):
+            c.publish(b'pre', bytes([48 + j]), qos=r.choice([1, 2]))
+            script += [(0, 1000), (0, 1000)]
+        kind = r.choice(['pub1', 'pub2', 'sub', 'unsub'])
+        if kind == 'pub1':
+            c.publish(b'topic/a', b'payload-1', qos=1)
+        elif kind == 'pub2':
+            c.publish(b'topic/a', b'payload-2', qos=2)
+        elif kind == 'sub':
+            c.subscribe(((b'filter/a', 1),))
+        else:
+            c.unsubscribe((b'filter/a',))
+        how = r.random()
+        k = r.choice([1, 2, 3, 5, 9])
+        if how < 0.35:
+            script += [(0, k), (1, 0)]                 # k bytes, then the write fails
+        elif how < 0.6:
+            script += [(0, k), (3, 0)]                 # k bytes, then the future is dropped
+        elif how < 0.8:
+            script += [(0, 1000), (1, 0)]              # written whole, the flush fails
+        else:
+            script += [(0, 1000), (3, 0)]              # written whole, the flush is dropped
+        c.drop()
+        sp = 1 if r.random() < 0.8 else 0
+        c.connect(connack(sp, 0, []))
+        script += [(0, 1000)] * 5
+        c.drive()
+        if r.random() < 0.5:
+            c.publish(b'new', b'n', qos=1)
+        c.drive()
+        if r.random() < 0.3:
+            c.drop()
+            c.connect(connack(1, 0, []))
+            c.drive()
+        c.ev(*script)
+        out.append(c.line())
+    return out
+
+
+PYGEN['py_c05r'] = gen_c05r
+
+
+def gen_c12p(seed, count):
+    """a connection abandoned in the middle of an INBOUND packet: some bytes of a packet (of the CONNACK itself, or of a
+    later packet) have been read, nothing more arrives, the future is dropped at the read and the handle dropped -
+    no error, no DISCONNECT.  Then connect() over a healthy transport to the conformant broker and a little use."""
+    out = []
+    for idx in range(count):
+        r = random.Random((seed << 20) ^ idx ^ 0xC12B)
+        c = Case(rx=r.choice([32, 64, 128]), tx=r.choice([128, 256]), ka=0)
+        if r.random() < 0.3:
+            ck = connack(0, 0, r.choice([[], [(33, 5)], [(18, b'assigned')]]))
+            c.connect(ck[:r.randint(1, len(ck) - 1)])            # the CONNACK never completes: connect() is dropped
+        else:
+            c.connect(connack(0, 0, []))
+            for j in range(r.randint(0, 2)):
+                c.publish(b'a', bytes([48 + j]), qos=r.choice([0, 1]))
+            pkt = r.choice([publish(1, 7, b'topic/in', b'0123456789'), publish(0, 0, b't', b'xy'), ack(4, 1), suback(1),
+                            publish(2, 9, b'q2', b'abcdefghijklmnop', ((38, (b'k', b'v')),))])
+            c.feed(pkt[:r.randint(1, len(pkt) - 1)])
+            r.choice([c.poll, c.recv])()                          # reads the fragment, then waits for ever: dropped
+        c.drop()
+        c.broker(2)
+        c.connect()
+        c.broker(r.choice([0, 1]))
+        c.feed(publish(0, 0, b'hello', b'world'))
+        c.poll()
+        c.publish(b'after', b'p', qos=1)
+        c.drive()
+        out.append(c.line())
+    return out
+
+
+PYGEN['py_c12p'] = gen_c12p
+
+
 def gen_c06(seed, count):
     """flow control against a small Receive Maximum: the window is filled with QoS 1 / QoS 2 publishes, subscribes and
     unsubscribes are acknowledged in between (their acknowledgements must not open the window), publish
